@@ -428,7 +428,8 @@ def round5_passes(ctx, rng, games, prefix, fields=None):
     """the history / environment / naming passes every solver property gets (DESIGN.md 12.6)"""
     environment_independence(ctx, list(games) + [gen.all_dead_game(rng)], prefix + "-independent-of-process-environment", fields)
     described_at_solve_time(ctx, games, prefix + "-of-the-description-at-solve-time", fields)
-    odd_label_invariance(ctx, games, prefix + "-unchanged-by-odd-action-names", rng, fields)
+    odd_label_invariance(ctx, list(games) + [gen.stopping_game(rng, n_inner=rng.randint(2, 5)) for _ in range(14)] +
+                         [gen.layered_tie_game(rng) for _ in range(4)], prefix + "-unchanged-by-odd-action-names", rng, fields)
     shared_rows_invariance(ctx, list(games) + [gen.stopping_game(rng) for _ in range(12)], prefix + "-unchanged-by-row-sharing", rng, fields)
 
 
